@@ -6,16 +6,23 @@
 //! the pending `graceful_shutdown` futures are polled in a seeded order until nothing moves):
 //!   k<n>:<h>     handle n := clone of the Connection held by handle h (a Connection, a stream's or a proxy's connection)
 //!   s<n>:<h>:<A|B|*>   handle n := MessageStream (for_match_rule / From<&Connection>) made from handle h's connection
-//!   p<n>:<h>     handle n := Proxy          g<n>:<p>   handle n := SignalStream of proxy p (receive_all_signals)
-//!   d<n>         drop handle n              G<n>       graceful_shutdown() on Connection handle n (consumes it)
+//!   p<n>:<h>[:n|l|e]   handle n := Proxy with CacheProperties::No / Lazily (default) / Yes (eager: build() waits for the cache,
+//!                the peer answers GetAll at once)
+//!   c<n>         get_property("Val") on proxy n (polled once)          v<n>   receive_property_changed("Val") on proxy n, stream dropped at once
+//!                (either starts the cache of a lazy proxy: PropertiesChanged subscription + GetAll call)
+//!   a<n>         the peer answers the outstanding GetAll of proxy n (the cache is populated and keeps listening)
+//!   g<n>:<p>[:s] handle n := SignalStream of proxy p (receive_all_signals, or receive_signal("Foo") with :s)
+//!   b<n>:<h>     handle n := blocking::Proxy (a blocking::Connection plus an async Proxy)
+//!   d<n>         drop handle n              D<n>       AsyncDrop::async_drop() of stream / signal-stream handle n
+//!   G<n>         graceful_shutdown() on Connection handle n (consumes it)
 //!   C<n>         close() on Connection handle n (consumes it)
 //!   m<k>         the peer sends the method call Slow(k)          r<k>   handler k is released (it replies and ends)
 //!   f<k>         the peer sends the method call Fast() (replies at once; reply id k)
-//! Observation: snap=<one token per op>;events=<...>
+//! Observation: snap=<one token per op>;events=<...>;ga=<GetAll calls the property caches made>
 //!   snap token: `W`/`w` write half dropped / alive, `R`/`r` read half, then `+<n>` for every graceful_shutdown done
 //!   events, in order: y<k> reply to call k written, o other message written, dw / dr half dropped, cl close(), gs<n>
 use std::{
-    collections::{BTreeMap, HashSet},
+    collections::{BTreeMap, HashMap, HashSet},
     future::Future,
     pin::Pin,
     sync::{Arc, Mutex},
@@ -70,7 +77,53 @@ enum Handle {
     Conn(zbus::Connection),
     Stream(MessageStream),
     Proxy(zbus::Proxy<'static>),
-    Signals(#[allow(dead_code)] zbus::proxy::SignalStream<'static>),
+    Signals(zbus::proxy::SignalStream<'static>),
+    Blocking(#[allow(dead_code)] zbus::blocking::Proxy<'static>),
+}
+
+/// GetAll calls among the messages written since `*seen`
+fn new_getalls(sh: &Sh, seen: &mut usize) -> Vec<Message> {
+    let st = sh.lock().unwrap();
+    let mut v = vec![];
+    while *seen < st.starts.len() {
+        let s = &st.starts[*seen];
+        if st.out.len() < s.off + s.len {
+            break;
+        }
+        let data = Data::new(st.out[s.off..s.off + s.len].to_vec(), ZCtx::new_dbus(Endian::Little, 0));
+        if let Ok(m) = unsafe { Message::from_bytes(data) } {
+            if m.header().member().map(|x| x.as_str() == "GetAll").unwrap_or(false) {
+                v.push(m);
+            }
+        }
+        *seen += 1;
+    }
+    v
+}
+
+fn reply_getall(sh: &Sh, call: &Message) {
+    let mut props: HashMap<&str, zvariant::Value<'_>> = HashMap::new();
+    props.insert("Val", zvariant::Value::from(5u32));
+    if let Ok(m) = Message::method_return(&call.header()).and_then(|b| b.build(&(props,))) {
+        sh.lock().unwrap().release(m.data().bytes());
+    }
+}
+
+/// like `spin`, with a peer that answers GetAll at once
+fn spin_answering<F: Future>(ex: &zbus::Executor<'static>, sh: &Sh, seen: &mut usize, f: F) -> Option<F::Output> {
+    let mut f = Box::pin(f);
+    for _ in 0..100_000 {
+        if let Poll::Ready(v) = poll_once(f.as_mut()) {
+            return Some(v);
+        }
+        let mut t = Box::pin(ex.tick());
+        let _ = poll_once(t.as_mut());
+        for m in new_getalls(sh, seen) {
+            reply_getall(sh, &m);
+            sh.lock().unwrap().events.push("ga".into());
+        }
+    }
+    None
 }
 
 fn spin<F: Future>(ex: &zbus::Executor<'static>, f: F) -> Option<F::Output> {
@@ -129,13 +182,16 @@ pub fn run(w: &[&str]) -> String {
     let mut graceful: Vec<(usize, Option<Pin<Box<dyn Future<Output = ()>>>>)> = vec![];
     let mut call_serial: BTreeMap<u32, u32> = BTreeMap::new();
     let mut snaps: Vec<String> = vec![];
+    let mut seen_starts: usize = 0;
+    let mut getalls: usize = 0;
+    let mut pending_getall: BTreeMap<usize, Message> = BTreeMap::new();
 
     fn conn_of(h: &Handle) -> Option<zbus::Connection> {
         match h {
             Handle::Conn(c) => Some(c.clone()),
             Handle::Stream(s) => Some(zbus::Connection::from(s)),
             Handle::Proxy(p) => Some(p.connection().clone()),
-            Handle::Signals(_) => None,
+            Handle::Signals(_) | Handle::Blocking(_) => None,
         }
     }
 
@@ -143,8 +199,9 @@ pub fn run(w: &[&str]) -> String {
         let (k, rest) = op.split_at(1);
         let parts: Vec<&str> = rest.split(':').collect();
         let num = |i: usize| -> Option<usize> { parts.get(i).and_then(|x| x.parse().ok()) };
+        let mut cache_op: Option<usize> = None;
         match k {
-            "k" | "s" | "p" => {
+            "k" | "s" | "p" | "b" => {
                 let (n, h) = match (num(0), num(1)) {
                     (Some(n), Some(h)) => (n, h),
                     _ => return "BADCASE".into(),
@@ -162,7 +219,27 @@ pub fn run(w: &[&str]) -> String {
                             };
                             s.map(Handle::Stream)
                         }
-                        _ => spin(&ex, zbus::Proxy::new(&c, ":1.5", "/p", "v.T")).and_then(|r| r.ok()).map(Handle::Proxy),
+                        "b" => zbus::blocking::Proxy::new(&zbus::blocking::Connection::from(c.clone()), ":1.5", "/p", "v.T")
+                            .ok()
+                            .map(Handle::Blocking),
+                        _ => {
+                            use zbus::proxy::CacheProperties;
+                            let mode = match parts.get(2).copied() {
+                                Some("n") => CacheProperties::No,
+                                Some("e") => CacheProperties::Yes,
+                                Some("l") | None => CacheProperties::Lazily,
+                                _ => return "BADCASE".into(),
+                            };
+                            let b = zbus::proxy::Builder::<zbus::Proxy<'static>>::new(&c)
+                                .destination(":1.5")
+                                .and_then(|b| b.path("/p"))
+                                .and_then(|b| b.interface("v.T"))
+                                .map(|b| b.cache_properties(mode));
+                            match b {
+                                Ok(b) => spin_answering(&ex, &shared, &mut seen_starts, b.build()).and_then(|r| r.ok()).map(Handle::Proxy),
+                                Err(_) => None,
+                            }
+                        }
                     };
                     drop(c);
                     if let Some(nh) = new {
@@ -175,10 +252,63 @@ pub fn run(w: &[&str]) -> String {
                     (Some(n), Some(p)) => (n, p),
                     _ => return "BADCASE".into(),
                 };
+                let named = parts.get(2).copied() == Some("s");
                 if let Some(Handle::Proxy(px)) = handles.get(&p) {
                     let px = px.clone();
-                    if let Some(Ok(s)) = spin(&ex, async move { px.receive_all_signals().await }) {
+                    let r = if named {
+                        spin(&ex, async move { px.receive_signal("Foo").await })
+                    } else {
+                        spin(&ex, async move { px.receive_all_signals().await })
+                    };
+                    if let Some(Ok(s)) = r {
                         handles.insert(n, Handle::Signals(s));
+                    }
+                }
+            }
+            "c" | "v" => {
+                let n = match num(0) {
+                    Some(n) => n,
+                    None => return "BADCASE".into(),
+                };
+                if let Some(Handle::Proxy(px)) = handles.get(&n) {
+                    if k == "c" {
+                        // get_property starts a lazy cache and waits for it; one poll is enough to start it, the future is
+                        // then given up (cached_property alone never starts the cache)
+                        let px2 = px.clone();
+                        let mut f = Box::pin(async move { px2.get_property::<u32>("Val").await });
+                        let _ = poll_once(f.as_mut());
+                        drop(f);
+                    } else {
+                        let px = px.clone();
+                        let _ = spin(&ex, async move {
+                            let s = px.receive_property_changed::<u32>("Val").await;
+                            drop(s);
+                        });
+                    }
+                    cache_op = Some(n);
+                }
+            }
+            "a" => {
+                if let Some(n) = num(0) {
+                    if let Some(call) = pending_getall.remove(&n) {
+                        reply_getall(&shared, &call);
+                    }
+                }
+            }
+            "D" => {
+                use zbus::AsyncDrop;
+                if let Some(n) = num(0) {
+                    match handles.get(&n) {
+                        Some(Handle::Stream(_)) | Some(Handle::Signals(_)) => match handles.remove(&n) {
+                            Some(Handle::Stream(s)) => {
+                                let _ = spin(&ex, s.async_drop());
+                            }
+                            Some(Handle::Signals(s)) => {
+                                let _ = spin(&ex, s.async_drop());
+                            }
+                            _ => (),
+                        },
+                        _ => (),
                     }
                 }
             }
@@ -264,6 +394,12 @@ pub fn run(w: &[&str]) -> String {
             }
             idle = if progress { 0 } else { idle + 1 };
         }
+        for m in new_getalls(&shared, &mut seen_starts) {
+            getalls += 1;
+            if let Some(n) = cache_op {
+                pending_getall.insert(n, m);
+            }
+        }
         let st = shared.lock().unwrap();
         let mut tok = format!("{}{}", if st.write_dropped { "W" } else { "w" }, if st.read_dropped { "R" } else { "r" });
         for (n, f) in &graceful {
@@ -287,6 +423,8 @@ pub fn run(w: &[&str]) -> String {
                 match unsafe { Message::from_bytes(data) } {
                     Ok(m) => match m.header().reply_serial().and_then(|r| call_serial.get(&r.get()).copied()) {
                         Some(id) if m.message_type() == zbus::message::Type::MethodReturn => format!("y{}", id),
+                        // the proxy's own Properties.Get / GetAll calls are not events of the property
+                        _ if m.header().member().map(|x| x.as_str() == "GetAll" || x.as_str() == "Get").unwrap_or(false) => continue,
                         _ => "o".to_string(),
                     },
                     Err(_) => "o".to_string(),
@@ -299,7 +437,14 @@ pub fn run(w: &[&str]) -> String {
             evs.push(e.clone());
         }
     }
-    let out = format!("snap={};events={}", snaps.join("."), if evs.is_empty() { "-".to_string() } else { evs.join(".") });
+    let eager = evs.iter().filter(|e| *e == "ga").count();
+    evs.retain(|e| e != "ga");
+    let out = format!(
+        "snap={};events={};ga={}",
+        snaps.join("."),
+        if evs.is_empty() { "-".to_string() } else { evs.join(".") },
+        getalls + eager
+    );
     drop(st);
     drop(handles);
     drop(graceful);
